@@ -94,15 +94,39 @@ fn specs(yens: bool, tier: Tier) -> Vec<GenSpec> {
 struct Space {
     nets: Vec<Net>,
     algos: Vec<(Algo, Option<usize>)>,
+    /// a second, larger family under a reduced configuration list (single-via, quick tier): five vertices make room for a
+    /// one-way cycle beside the least-cost route, which a via route can run around
+    extra_nets: Vec<Net>,
+    extra_algos: Vec<(Algo, Option<usize>)>,
 }
 impl Space {
     fn new(yens: bool, tier: Tier) -> Space {
-        Space { nets: nets(&specs(yens, tier)), algos: ksp_algos(yens, tier) }
+        let (extra_nets, extra_algos) = if !yens && tier == Tier::Quick {
+            (
+                nets(&[GenSpec { n: 5, max_edges: 5, max_mult: 1, n_len: 1, self_loops: false, mode: LenMode::PowersOfTwo }]).into_iter().filter(|n| n.m() >= 4).collect(),
+                vec![
+                    (Algo::SingleVia { k: 3, under: Box::new(Algo::Dijkstra), sim: Some(Sim::AcceptAll), term: None }, None),
+                    (Algo::SingleVia { k: 3, under: Box::new(Algo::AStar(Some(1.0))), sim: Some(Sim::EdgeCos(0.99)), term: None }, None),
+                ],
+            )
+        } else {
+            (vec![], vec![])
+        };
+        Space { nets: nets(&specs(yens, tier)), algos: ksp_algos(yens, tier), extra_nets, extra_algos }
     }
-    fn len(&self) -> u64 {
+    fn main_len(&self) -> u64 {
         (self.nets.len() * self.algos.len()) as u64
     }
+    fn len(&self) -> u64 {
+        self.main_len() + (self.extra_nets.len() * self.extra_algos.len()) as u64
+    }
     fn case(&self, i: u64) -> Case {
+        if i >= self.main_len() {
+            let j = (i - self.main_len()) as usize;
+            let net = self.extra_nets[j / self.extra_algos.len()].clone();
+            let a = &self.extra_algos[j % self.extra_algos.len()];
+            return Case { net, algo: a.0.clone(), query_k: a.1, speed_world: false };
+        }
         let ni = i as usize / self.algos.len();
         let ai = i as usize % self.algos.len();
         let net = self.nets[ni].clone();
@@ -404,7 +428,7 @@ pub fn worker(args: &[String]) -> i32 {
             let space = Space::new(mode == "yens", tier);
             worker_loop(|i, st| {
                 let c = space.case(i);
-                if i as usize % space.algos.len() == 0 {
+                if i < space.main_len() && i as usize % space.algos.len() == 0 {
                     st.states += 1;
                     if mode != "yens" {
                         check_edge_oriented(&c.net, st);
